@@ -40,6 +40,31 @@ Qed.
 Lemma filter_exposed fs : filter (exposedb skip_gen cmd_default_gen) fs = filter spec_exposed fs.
 Proof. apply filter_ext. exact exposedb_gen_spec. Qed.
 
+(* the regenerated title and description functions on the modelled domain: `qualname ['dest']`, the class docstring *)
+Lemma title_gen_spec w : title title_gen w = spec_title w.
+Proof.
+  unfold title, spec_title, title_gen. cbn [map String.concat]. rewrite !append_assoc. reflexivity.
+Qed.
+
+(* the regenerated DataclassWrapper.description is the documented rule, for ALL inputs (not only the modelled domain) *)
+Theorem description_gen_rule m b a i cd d sh fd hg :
+  description_gen m b a i cd d sh fd hg = spec_description m b a i cd d sh fd hg.
+Proof.
+  unfold description_gen, spec_description.
+  destruct m, (String.eqb b ""), (String.eqb a ""), (String.eqb i ""), (String.eqb cd ""), fd, hg; reflexivity.
+Qed.
+
+Lemma description_gen_spec w : description description_gen w = hw_doc w.
+Proof.
+  unfold description, description_gen. cbn [String.eqb negb].
+  destruct (Nat.ltb 1 (List.length (hw_path w))); destruct (String.eqb (hw_doc w) "") eqn:E;
+    try reflexivity; apply String.eqb_eq in E; rewrite E; reflexivity.
+Qed.
+
+(* BooleanOptionalAction registers the positive spellings followed by the negative ones *)
+Lemma bool_action_opts_gen_spec pos negs : bool_action_opts_gen pos negs = (pos ++ negs)%list.
+Proof. reflexivity. Qed.
+
 (* ---------- option strings of an entry: the accepted spellings, each once, whatever the seed ---------- *)
 Lemma ordered_opts_In b perm c f o :
   valid perm -> (In o (ordered_opts b perm c f) <-> In o (option_strings c f)).
@@ -59,12 +84,12 @@ Proof.
     [symmetry; apply sort_by_perm | exact N].
 Qed.
 
-Lemma entry_of_dest ah tok ad st ew np b perm c D f : e_dest (entry_of ah tok ad st ew np b perm c D f) = hdest f.
-Proof. unfold entry_of. destruct (ah _ _) as [h|]; [destruct (is_blank h)|]; reflexivity. Qed.
+Lemma entry_of_dest ah tok ad st ew np dc bh bo b perm c D f : e_dest (entry_of ah tok ad st ew np dc bh bo b perm c D f) = hdest f.
+Proof. unfold entry_of. destruct (ah _ _) as [h|]; [destruct (bh && is_blank h)|]; reflexivity. Qed.
 
-Lemma entry_of_opts ah tok ad st ew np b perm c D f :
-  e_opts (entry_of ah tok ad st ew np b perm c D f) = shown_opts np b perm c f.
-Proof. unfold entry_of. destruct (ah _ _) as [h|]; [destruct (is_blank h)|]; reflexivity. Qed.
+Lemma entry_of_opts ah tok ad st ew np dc bh bo b perm c D f :
+  e_opts (entry_of ah tok ad st ew np dc bh bo b perm c D f) = shown_opts np bo b perm c f.
+Proof. unfold entry_of. destruct (ah _ _) as [h|]; [destruct (bh && is_blank h)|]; reflexivity. Qed.
 
 (* ---------- complete: groups <-> wrappers, entries <-> exposed fields, in declaration order ---------- *)
 Definition shows (c : cfg) (f : hfield) (e : entry) : Prop :=
@@ -88,7 +113,7 @@ Theorem help_complete perm c D F :
                       /\ Forall2 (shows c) (filter spec_exposed (hw_fields w)) (g_entries g))
           F (help_entries_gen perm c D F).
 Proof.
-  intros V. unfold help_entries_gen, help_entries. apply Forall2_map_r. intros w _. split; [reflexivity|]. split; [reflexivity|].
+  intros V. unfold help_entries_gen, help_entries. apply Forall2_map_r. intros w _. split; [apply title_gen_spec|]. split; [apply description_gen_spec|].
   unfold group_of. cbn [g_entries]. rewrite filter_exposed. apply Forall2_map_r. intros f _.
   unfold shows. rewrite entry_of_dest, entry_of_opts. split; [reflexivity|].
   exists (ordered_opts option_order_preserved_gen perm c (hf_fw f)). split; [|split].
@@ -150,7 +175,7 @@ Proof.
   intros H. unfold hidden_not_mentioned. apply forallb_forall. intros w Hw. apply forallb_forall. intros f Hf.
   destruct (spec_exposed f) eqn:E; [reflexivity|]. cbn [orb]. apply forallb_forall. intros g Hg.
   unfold help_entries_gen, help_entries in Hg. apply in_map_iff in Hg as [w' [<- Hw']].
-  cbn [group_of g_desc]. rewrite (H w w' f Hw Hw' Hf E). reflexivity.
+  cbn [group_of g_desc]. rewrite description_gen_spec, (H w w' f Hw Hw' Hf E). reflexivity.
 Qed.
 
 Definition W_autodoc : list hwrap :=
@@ -171,11 +196,16 @@ Definition help_ok (f : hfield) : bool := String.eqb (hf_help f) "" || negb (is_
 Lemma ext_wins_gen_spec falsy : ext_wins_gen falsy = true.
 Proof. destruct falsy; reflexivity. Qed.
 
-Lemma effective_spec D f : effective ext_wins_gen D f = spec_effective D f.
+(* the regenerated chain of FieldWrapper.default asks for an outside default first and for the definition's
+   (field.default, then default_factory) only after it - so the effective default is the spec's *)
+Lemma effective_spec D f : effective ext_wins_gen default_chain_gen D f = spec_effective D f.
 Proof.
-  unfold effective, spec_effective, hdest. destruct (dlookup (dest (hf_fw f)) D) as [v|]; [|reflexivity].
-  rewrite ext_wins_gen_spec. reflexivity.
+  unfold effective, spec_effective, hdest, default_chain_gen. cbn [run_dchain].
+  destruct (dlookup (dest (hf_fw f)) D) as [v|].
+  - rewrite ext_wins_gen_spec. reflexivity.
+  - destruct (hf_default f); reflexivity.
 Qed.
+
 
 Theorem default_shown perm c D f v :
   help_ok f = true -> spec_effective D f = Some v -> e_default (entry_of_gen perm c D f) = Some v.
@@ -216,7 +246,7 @@ Theorem help_text_shown perm c D f :
 Proof.
   intros Hh Ho. unfold entry_of_gen, entry_of, arg_help_gen. unfold help_ok in Hh.
   destruct (String.eqb (hf_help f) "") eqn:E; cbn [negb].
-  - apply String.eqb_eq in E. rewrite E. destruct (effective ext_wins_gen D f); reflexivity.
+  - apply String.eqb_eq in E. rewrite E. destruct (effective ext_wins_gen default_chain_gen D f); reflexivity.
   - cbn [orb] in Hh. apply negb_true_iff in Hh. rewrite Hh. cbn [e_help strips_token_gen].
     unfold remove_sub. change (String.eqb TEMPORARY_TOKEN_gen "") with false. cbv iota.
     apply remove_sub_fuel_noocc. exact Ho.
@@ -225,12 +255,12 @@ Qed.
 (* ---------- reproducibility ---------- *)
 (* FULL statement: the whole `--help` run is a function of the definition (no dependence on the oracle).
    It follows from the regenerated fact "option_strings de-duplicates through an order-preserving container". *)
-Lemma entry_of_true ah tok ad st ew np p1 p2 c D f :
-  entry_of ah tok ad st ew np true p1 c D f = entry_of ah tok ad st ew np true p2 c D f.
+Lemma entry_of_true ah tok ad st ew np dc bh bo p1 p2 c D f :
+  entry_of ah tok ad st ew np dc bh bo true p1 c D f = entry_of ah tok ad st ew np dc bh bo true p2 c D f.
 Proof. reflexivity. Qed.
 
-Lemma cli_help_of_true sk cd ah tok ad st ew np p1 p2 hs ho c pre cfgf s :
-  cli_help_of sk cd ah tok ad st ew np true p1 hs ho c pre cfgf s = cli_help_of sk cd ah tok ad st ew np true p2 hs ho c pre cfgf s.
+Lemma cli_help_of_true sk cd ah tok ad st ew np dc bh bo mt ds p1 p2 hs ho c pre cfgf s :
+  cli_help_of sk cd ah tok ad st ew np dc bh bo mt ds true p1 hs ho c pre cfgf s = cli_help_of sk cd ah tok ad st ew np dc bh bo mt ds true p2 hs ho c pre cfgf s.
 Proof.
   unfold cli_help_of. destruct s as [F'|e]; reflexivity.
 Qed.
@@ -381,9 +411,9 @@ Proof.
     + apply nat_nodupb_NoDup. exact T.
 Qed.
 
-Lemma entry_of_tie_free ah tok ad st ew np b p1 p2 c D f :
+Lemma entry_of_tie_free ah tok ad st ew np dc bh bo b p1 p2 c D f :
   valid p1 -> valid p2 -> tie_free c (hf_fw f) = true ->
-  entry_of ah tok ad st ew np b p1 c D f = entry_of ah tok ad st ew np b p2 c D f.
+  entry_of ah tok ad st ew np dc bh bo b p1 c D f = entry_of ah tok ad st ew np dc bh bo b p2 c D f.
 Proof.
   intros V1 V2 T. unfold entry_of, shown_opts. rewrite (ordered_opts_tie_free b p1 p2 c (hf_fw f) V1 V2 T). reflexivity.
 Qed.
@@ -396,8 +426,10 @@ Proof.
   unfold forest_tie_free in T. rewrite forallb_forall in T. specialize (T w Hw). rewrite forallb_forall in T.
   unfold group_of. rewrite filter_exposed.
   assert (E : forall f, In f (filter spec_exposed (hw_fields w)) ->
-                        entry_of arg_help_gen TEMPORARY_TOKEN_gen adds_default_gen strips_token_gen ext_wins_gen DEFAULT_NEGATIVE_PREFIX option_order_preserved_gen p1 c D f
-                        = entry_of arg_help_gen TEMPORARY_TOKEN_gen adds_default_gen strips_token_gen ext_wins_gen DEFAULT_NEGATIVE_PREFIX option_order_preserved_gen p2 c D f).
+                        entry_of arg_help_gen TEMPORARY_TOKEN_gen adds_default_gen strips_token_gen ext_wins_gen DEFAULT_NEGATIVE_PREFIX
+                                 default_chain_gen blank_help_hidden_gen bool_action_opts_gen option_order_preserved_gen p1 c D f
+                        = entry_of arg_help_gen TEMPORARY_TOKEN_gen adds_default_gen strips_token_gen ext_wins_gen DEFAULT_NEGATIVE_PREFIX
+                                 default_chain_gen blank_help_hidden_gen bool_action_opts_gen option_order_preserved_gen p2 c D f).
   { intros f Hf. apply filter_In in Hf as [Hf1 Hf2]. specialize (T f Hf1). rewrite Hf2 in T. cbn [negb orb] in T.
     apply entry_of_tie_free; assumption. }
   rewrite (map_ext_in _ _ _ E). reflexivity.
